@@ -14,7 +14,9 @@ Record Inv (s : srv) : Prop := {
                    v_sockfile s = true;
   inv_sock_tcp : v_kind s = TCP -> v_sockfile s = false;
   inv_session_client : forall c k, nth_error (v_conns s) c = Some k -> k_session k = true ->
-                       k_client_open k = true
+                       k_waiting k = false -> k_client_open k = true;
+  inv_waiting_session : forall c k, nth_error (v_conns s) c = Some k -> k_waiting k = true ->
+                        k_session k = true
 }.
 
 Lemma Inv_init k : Inv (init k).
@@ -53,10 +55,12 @@ Lemma Inv_settle s :
   (v_done s = true -> v_sockfile s = false) ->
   (v_kind s = Unix -> v_started s = true -> v_done s = false -> v_sockfile s = true) ->
   (v_kind s = TCP -> v_sockfile s = false) ->
-  (forall c k, nth_error (v_conns s) c = Some k -> k_session k = true -> k_client_open k = true) ->
+  (forall c k, nth_error (v_conns s) c = Some k -> k_session k = true -> k_waiting k = false ->
+               k_client_open k = true) ->
+  (forall c k, nth_error (v_conns s) c = Some k -> k_waiting k = true -> k_session k = true) ->
   Inv (settle s).
 Proof.
-  intros H1 H2 H3 H4 H5 H6 H7 H8. unfold settle.
+  intros H1 H2 H3 H4 H5 H6 H7 H8 H9. unfold settle.
   destruct (v_stopreq s && negb (v_done s) && all_sessions_ended (v_conns s)) eqn:E.
   - apply andb_true_iff in E. destruct E as [E Ha].
     apply andb_true_iff in E. destruct E as [Hs Hd]. apply negb_true_iff in Hd.
@@ -64,6 +68,7 @@ Proof.
     constructor; cbn; intros; auto; try congruence.
     + split; auto.
     + eapply H8; eauto.
+    + eapply H9; eauto.
   - constructor; auto.
     + intros Hs. split; [intros Hd; apply H4; exact Hd|].
       intros Ha. rewrite Hs, Ha in E. destruct (v_done s); [reflexivity|discriminate].
@@ -77,117 +82,182 @@ Proof. unfold all_sessions_ended. rewrite forallb_app. cbn. rewrite andb_true_r.
 (* case analysis on a boolean of the goal only (hypotheses are left untouched) *)
 Ltac dcase t H := let bb := fresh "bb" in remember t as bb eqn:H; destruct bb; symmetry in H.
 
+Lemma live_session_not_done s c k :
+  Inv s -> nth_error (v_conns s) c = Some k -> k_session k = true -> v_done s = false.
+Proof.
+  intros I Hk Hse. apply Bool.not_true_is_false. intros E.
+  pose proof (inv_done_stop _ I E) as Hs. apply (inv_done_iff _ I Hs) in E.
+  unfold all_sessions_ended in E. rewrite forallb_forall in E.
+  apply nth_error_In in Hk. apply E in Hk. rewrite Hse in Hk. discriminate.
+Qed.
+
+(* a fact about the connection at index c0 of [upd l c x]: about x itself, or from the old list *)
+Ltac upd_case H :=
+  rewrite nth_error_upd in H;
+  match type of H with
+  | (if Nat.eqb ?a ?b then _ else _) = _ =>
+      destruct (Nat.eqb a b); [|eauto];
+      match type of H with
+      | (if Nat.ltb ?x ?y then _ else _) = _ => destruct (Nat.ltb x y); [|discriminate]
+      end;
+      injection H as <-; cbn in *; try reflexivity; try discriminate; try congruence
+  end.
+
+(* a fact about the connection at index c of [l ++ [x]]: from the old list or about x itself *)
+Ltac app_case H :=
+  match type of H with nth_error (?l ++ [?x]) ?c = Some ?k =>
+    let Hlt := fresh "Hlt" in let Hge := fresh "Hge" in
+    destruct (Nat.lt_ge_cases c (length l)) as [Hlt|Hge];
+    [rewrite nth_error_app1 in H by exact Hlt; eauto
+    |rewrite nth_error_app2 in H by exact Hge;
+     destruct (c - length l) as [|[|?]]; cbn in H; try discriminate;
+     injection H as <-; cbn in *; try reflexivity; try discriminate; try congruence]
+  end.
+
 Lemma Inv_step s l : Inv s -> Inv (step s l).
 Proof.
   intros I.
-  destruct l as [| | | |c|c|c|]; cbn [step].
+  destruct l as [| | | |c|c|c|c|c|]; cbn [step].
   - (* LStart *)
     dcase (v_started s && negb (v_done s)) Hst; [exact I|].
-    pose proof I as [I1 I2 I3 I4 I5 I6 I7 I8 I9].
+    pose proof I as [I1 I2 I3 I4 I5 I6 I7 I8 I9 I10].
     constructor; cbn; intros; auto; try discriminate; try congruence.
     + destruct (v_kind s); [discriminate|reflexivity].
     + rewrite H. reflexivity.
     + eapply I9; eauto.
+    + eapply I10; eauto.
   - (* LConnect *)
-    dcase (v_listening s) Hl; pose proof I as [I1 I2 I3 I4 I5 I6 I7 I8 I9].
+    dcase (v_listening s) Hl; pose proof I as [I1 I2 I3 I4 I5 I6 I7 I8 I9 I10].
     + assert (Hns : v_stopreq s = false)
         by (destruct (v_stopreq s) eqn:E; auto; destruct (I3 eq_refl); congruence).
       assert (Hst : v_started s = true)
         by (destruct (v_started s) eqn:E; auto; destruct (I1 eq_refl); congruence).
       destruct (I2 Hst Hns) as [_ Hd].
       constructor; unfold set_conns; cbn; intros; auto; try congruence.
-      * destruct (Nat.lt_ge_cases c (length (v_conns s))) as [Hlt|Hge].
-        -- rewrite nth_error_app1 in H by exact Hlt. eauto.
-        -- rewrite nth_error_app2 in H by exact Hge.
-           destruct (c - length (v_conns s)) as [|[|n]]; cbn in H; try discriminate.
-           injection H as <-. reflexivity.
+      all: app_case H.
     + constructor; cbn; intros; eauto.
       * destruct (I1 H) as [_ [? [? ?]]]; auto.
       * destruct (I2 H H0) as [Hx _]; congruence.
       * destruct (I3 H) as [_ ?]; auto.
   - (* LConnectBad *)
-    dcase (v_listening s) Hl; pose proof I as [I1 I2 I3 I4 I5 I6 I7 I8 I9].
+    dcase (v_listening s) Hl; pose proof I as [I1 I2 I3 I4 I5 I6 I7 I8 I9 I10].
     + assert (Hns : v_stopreq s = false)
         by (destruct (v_stopreq s) eqn:E; auto; destruct (I3 eq_refl); congruence).
       assert (Hst : v_started s = true)
         by (destruct (v_started s) eqn:E; auto; destruct (I1 eq_refl); congruence).
       destruct (I2 Hst Hns) as [_ Hd].
       constructor; unfold set_conns; cbn; intros; auto; try congruence.
-      * destruct (Nat.lt_ge_cases c (length (v_conns s))) as [Hlt|Hge].
-        -- rewrite nth_error_app1 in H by exact Hlt. eauto.
-        -- rewrite nth_error_app2 in H by exact Hge.
-           destruct (c - length (v_conns s)) as [|[|n]]; cbn in H; try discriminate.
-           injection H as <-. cbn in H0. discriminate.
+      all: app_case H.
     + constructor; cbn; intros; eauto.
       * destruct (I1 H) as [_ [? [? ?]]]; auto.
       * destruct (I2 H H0) as [Hx _]; congruence.
       * destruct (I3 H) as [_ ?]; auto.
   - (* LOpen *)
-    dcase (v_listening s) Hl; pose proof I as [I1 I2 I3 I4 I5 I6 I7 I8 I9].
+    dcase (v_listening s) Hl; pose proof I as [I1 I2 I3 I4 I5 I6 I7 I8 I9 I10].
     + assert (Hns : v_stopreq s = false)
         by (destruct (v_stopreq s) eqn:E; auto; destruct (I3 eq_refl); congruence).
       assert (Hst : v_started s = true)
         by (destruct (v_started s) eqn:E; auto; destruct (I1 eq_refl); congruence).
       destruct (I2 Hst Hns) as [_ Hd].
       constructor; unfold set_conns; cbn; intros; auto; try congruence.
-      * destruct (Nat.lt_ge_cases c (length (v_conns s))) as [Hlt|Hge].
-        -- rewrite nth_error_app1 in H by exact Hlt. eauto.
-        -- rewrite nth_error_app2 in H by exact Hge.
-           destruct (c - length (v_conns s)) as [|[|n]]; cbn in H; try discriminate.
-           injection H as <-. reflexivity.
+      all: app_case H.
     + constructor; cbn; intros; eauto.
       * destruct (I1 H) as [_ [? [? ?]]]; auto.
       * destruct (I2 H H0) as [Hx _]; congruence.
       * destruct (I3 H) as [_ ?]; auto.
   - (* LHello *)
     destruct (nth_error (v_conns s) c) as [k|] eqn:Hk; [|exact I].
-    dcase (k_client_open k && k_session k && negb (k_hello k)) Hopen; [|exact I]. pose proof I as [I1 I2 I3 I4 I5 I6 I7 I8 I9].
+    dcase (k_client_open k && k_session k && negb (k_hello k)) Hopen; [|exact I].
+    pose proof I as [I1 I2 I3 I4 I5 I6 I7 I8 I9 I10].
     apply andb_true_iff in Hopen. destruct Hopen as [Hopen _].
     apply andb_true_iff in Hopen. destruct Hopen as [Ho Hse].
-    assert (Hnd : v_done s = false).
-    { apply Bool.not_true_is_false. intros E. pose proof (I5 E) as Hs.
-      apply (I4 Hs) in E. unfold all_sessions_ended in E. rewrite forallb_forall in E.
-      apply nth_error_In in Hk. apply E in Hk. rewrite Hse in Hk. discriminate. }
+    assert (Hnd : v_done s = false) by (eapply live_session_not_done; eauto).
     apply Inv_settle; unfold set_conns; cbn; intros; auto; try congruence.
     + destruct (I1 H) as [_ [_ [_ Hc]]]. rewrite Hc in Hk. destruct c; discriminate.
-    + rewrite nth_error_upd in H.
-      destruct (Nat.eqb c c0); [|eauto].
-      destruct (Nat.ltb c (length (v_conns s))); [|discriminate]. injection H as <-. reflexivity.
+    + upd_case H.
+    + upd_case H.
   - (* LSend *)
     destruct (nth_error (v_conns s) c) as [k|] eqn:Hk; [|exact I].
-    dcase (k_client_open k && k_session k && k_hello k) Hopen; [|exact I]. pose proof I as [I1 I2 I3 I4 I5 I6 I7 I8 I9].
+    dcase (k_client_open k && k_session k && k_hello k && negb (k_waiting k)) Hopen; [|exact I].
+    pose proof I as [I1 I2 I3 I4 I5 I6 I7 I8 I9 I10].
+    apply andb_true_iff in Hopen. destruct Hopen as [Hopen _].
     apply andb_true_iff in Hopen. destruct Hopen as [Hopen _].
     apply andb_true_iff in Hopen. destruct Hopen as [Ho Hse].
-    assert (Hnd : v_done s = false).
-    { apply Bool.not_true_is_false. intros E. pose proof (I5 E) as Hs.
-      apply (I4 Hs) in E. unfold all_sessions_ended in E. rewrite forallb_forall in E.
-      apply nth_error_In in Hk. apply E in Hk. rewrite Hse in Hk. discriminate. }
+    assert (Hnd : v_done s = false) by (eapply live_session_not_done; eauto).
     apply Inv_settle; unfold set_conns; cbn; intros; auto; try congruence.
     + destruct (I1 H) as [_ [_ [_ Hc]]]. rewrite Hc in Hk. destruct c; discriminate.
-    + rewrite nth_error_upd in H.
-      destruct (Nat.eqb c c0); [|eauto].
-      destruct (Nat.ltb c (length (v_conns s))); [|discriminate]. injection H as <-. reflexivity.
+    + upd_case H.
+    + upd_case H.
+  - (* LSendWait: the session enters a waiting command; nothing else changes *)
+    destruct (nth_error (v_conns s) c) as [k|] eqn:Hk; [|exact I].
+    dcase (k_client_open k && k_session k && k_hello k && negb (k_waiting k)) Hopen; [|exact I].
+    pose proof I as [I1 I2 I3 I4 I5 I6 I7 I8 I9 I10].
+    apply andb_true_iff in Hopen. destruct Hopen as [Hopen _].
+    apply andb_true_iff in Hopen. destruct Hopen as [Hopen _].
+    apply andb_true_iff in Hopen. destruct Hopen as [Ho Hse].
+    assert (Hnd : v_done s = false) by (eapply live_session_not_done; eauto).
+    constructor; unfold set_conns; cbn; intros; auto; try congruence.
+    + destruct (I1 H) as [Ha [Hb [Hc Hd]]]. rewrite Hd in Hk. destruct c; discriminate.
+    + (* done <-> all ended: done is false, and the updated connection still has a session *)
+      split; [congruence|]. intros Ha. exfalso.
+      unfold all_sessions_ended in Ha. rewrite forallb_forall in Ha.
+      assert (Hin : In {| k_client_open := true; k_session := true; k_replies := k_replies k;
+                          k_hello := true; k_waiting := true |} (upd (v_conns s) c
+                       {| k_client_open := true; k_session := true; k_replies := k_replies k;
+                          k_hello := true; k_waiting := true |})).
+      { eapply nth_error_In with (n := c). rewrite nth_error_upd, Nat.eqb_refl.
+        assert (Hlt : c < length (v_conns s)) by (apply nth_error_Some; congruence).
+        apply Nat.ltb_lt in Hlt. rewrite Hlt. reflexivity. }
+      apply Ha in Hin. cbn in Hin. discriminate.
+    + upd_case H.
+    + upd_case H.
   - (* LLeave *)
     destruct (nth_error (v_conns s) c) as [k|] eqn:Hk; [|exact I].
-    dcase (k_client_open k) Ho; [|exact I]. pose proof I as [I1 I2 I3 I4 I5 I6 I7 I8 I9].
+    dcase (k_client_open k) Ho; [|exact I]. pose proof I as [I1 I2 I3 I4 I5 I6 I7 I8 I9 I10].
     apply Inv_settle; unfold set_conns; cbn; intros; auto.
     + destruct (I1 H) as [_ [_ [_ Hc]]]. rewrite Hc in Hk. destruct c; discriminate.
     + split; [apply I5; exact H|].
       pose proof (I5 H) as Hs. apply (I4 Hs) in H. unfold all_sessions_ended in *.
       rewrite forallb_forall in *. intros x Hx. apply In_nth_error in Hx. destruct Hx as [n Hn].
       rewrite nth_error_upd in Hn. destruct (Nat.eqb c n).
-      * destruct (Nat.ltb c (length (v_conns s))); [|discriminate]. injection Hn as <-. reflexivity.
+      * destruct (Nat.ltb c (length (v_conns s))); [|discriminate]. injection Hn as <-. cbn.
+        (* the old connection had no session (all had ended), hence was not waiting *)
+        pose proof (H k (nth_error_In _ _ Hk)) as Hk'. apply negb_true_iff in Hk'.
+        destruct (k_waiting k) eqn:Hw; [|reflexivity].
+        rewrite (I10 c k Hk Hw) in Hk'. discriminate.
+      * apply H. eapply nth_error_In; eauto.
+    + upd_case H.
+    + upd_case H.
+  - (* LAbort *)
+    destruct (nth_error (v_conns s) c) as [k|] eqn:Hk; [|exact I].
+    dcase (k_client_open k) Ho; [|exact I]. pose proof I as [I1 I2 I3 I4 I5 I6 I7 I8 I9 I10].
+    apply Inv_settle; unfold set_conns; cbn; intros; auto.
+    + destruct (I1 H) as [_ [_ [_ Hc]]]. rewrite Hc in Hk. destruct c; discriminate.
+    + split; [apply I5; exact H|].
+      pose proof (I5 H) as Hs. apply (I4 Hs) in H. unfold all_sessions_ended in *.
+      rewrite forallb_forall in *. intros x Hx. apply In_nth_error in Hx. destruct Hx as [n Hn].
+      rewrite nth_error_upd in Hn. destruct (Nat.eqb c n).
+      * destruct (Nat.ltb c (length (v_conns s))); [|discriminate]. injection Hn as <-. cbn.
+        destruct (v_kind s); [reflexivity|].
+        pose proof (H k (nth_error_In _ _ Hk)) as Hk'. apply negb_true_iff in Hk'.
+        destruct (k_waiting k) eqn:Hw; [|reflexivity].
+        rewrite (I10 c k Hk Hw) in Hk'. discriminate.
       * apply H. eapply nth_error_In; eauto.
     + rewrite nth_error_upd in H.
       destruct (Nat.eqb c c0); [|eauto].
       destruct (Nat.ltb c (length (v_conns s))); [|discriminate]. injection H as <-.
-      cbn in H0. discriminate.
+      cbn in *. destruct (v_kind s); congruence.
+    + rewrite nth_error_upd in H.
+      destruct (Nat.eqb c c0); [|eauto].
+      destruct (Nat.ltb c (length (v_conns s))); [|discriminate]. injection H as <-.
+      cbn in *. destruct (v_kind s); congruence.
   - (* LStop *)
-    dcase (v_started s && negb (v_stopreq s)) E; [|exact I]. pose proof I as [I1 I2 I3 I4 I5 I6 I7 I8 I9].
+    dcase (v_started s && negb (v_stopreq s)) E; [|exact I]. pose proof I as [I1 I2 I3 I4 I5 I6 I7 I8 I9 I10].
     apply andb_true_iff in E. destruct E as [Hst Hns]. apply negb_true_iff in Hns.
     destruct (I2 Hst Hns) as [Hl Hd].
     apply Inv_settle; cbn; intros; auto; try discriminate; try congruence.
-    eapply I9; eauto.
+    + eapply I9; eauto.
+    + eapply I10; eauto.
 Qed.
 
 Theorem Inv_run k tr : Inv (run k tr).
